@@ -491,7 +491,7 @@ func main() {
 		exhaustiveFamily(h)
 		n := 3000
 		if h.Thorough() {
-			n = 100000
+			n = 150000
 		}
 		for i := 0; i < n; i++ {
 			h.Case(randomCase)
